@@ -130,8 +130,8 @@ pub fn culprit_expression(p: &Parsed, width: usize) -> Option<String> {
       Err(_) => true,
       Ok((_, e2)) => {
         es.has_errors() || {
-          let a = astwalk::canon_subtree(&Walker::new(&p.heap).expr(e));
-          let b = astwalk::canon_subtree(&Walker::new(&heap2).expr(&e2));
+          let a = astwalk::canon_subtree(&Walker::new_unresolved(&p.heap).expr(e));
+          let b = astwalk::canon_subtree(&Walker::new_unresolved(&heap2).expr(&e2));
           a != b
         }
       }
@@ -161,7 +161,7 @@ fn round_trips(heap: &Heap, width: usize, store: &samlang_ast::source::CommentSt
   let mut es = ErrorSet::new();
   match catch(AssertUnwindSafe(|| samlang_parser::parse_source_expression_from_text(&printed, ModuleReference::DUMMY, &mut heap2, &mut es))) {
     Err(_) => false,
-    Ok((_, e2)) => !es.has_errors() && astwalk::canon_subtree(&Walker::new(heap).expr(e)) == astwalk::canon_subtree(&Walker::new(&heap2).expr(&e2)),
+    Ok((_, e2)) => !es.has_errors() && astwalk::canon_subtree(&Walker::new_unresolved(heap).expr(e)) == astwalk::canon_subtree(&Walker::new_unresolved(&heap2).expr(&e2)),
   }
 }
 
